@@ -369,8 +369,8 @@ def space(tier):
     def long_proto(j, rng):
         return {"config": {"version": 3, "token": rand_bytes(rng, 64).hex(), "key": rand_bytes(rng, 32).hex()},
                 "ops": [], "long_proto": 66_000 + 4096 * j}
-    sp.add("long_session_protocol_level", 2 if tier == "quick" else 6, long_proto, wall_limit=300)
-    sp.add("long_session", 2 if tier == "quick" else 4, long_fn, wall_limit=300)      # first: the longest runs start first
+    sp.add("long_session_protocol_level", 2 if tier == "quick" else 6, long_proto, wall_limit=600)
+    sp.add("long_session", 2 if tier == "quick" else 4, long_fn, wall_limit=600)      # first: the longest runs start first
     sp.add("histories", 12000 if tier == "quick" else 600_000, gen_plan)
     return sp
 
